@@ -447,7 +447,7 @@ impl Wake for TaskWaker {
 pub struct Gate<F> {
     id: u64,
     done: bool,
-    inner: Pin<Box<F>>,
+    inner: Option<Pin<Box<F>>>,
 }
 
 /// Wrap a future that is about to be spawned
@@ -456,7 +456,7 @@ pub fn gate<F: Future>(name: Option<&str>, inner: F) -> Gate<F> {
         return Gate {
             id: 0,
             done: false,
-            inner: Box::pin(inner),
+            inner: Some(Box::pin(inner)),
         };
     }
     let id = NEXT_TASK.fetch_add(1, Ordering::SeqCst);
@@ -485,7 +485,7 @@ pub fn gate<F: Future>(name: Option<&str>, inner: F) -> Gate<F> {
     Gate {
         id,
         done: false,
-        inner: Box::pin(inner),
+        inner: Some(Box::pin(inner)),
     }
 }
 
@@ -493,7 +493,7 @@ impl<F: Future> Future for Gate<F> {
     type Output = F::Output;
     fn poll(self: Pin<&mut Self>, cx: &mut Context<'_>) -> Poll<F::Output> {
         let this = self.get_mut();
-        let inner = this.inner.as_mut();
+        let inner = this.inner.as_mut().expect("gate polled after drop").as_mut();
         if this.id == 0 || !SCHED_ON.load(Ordering::SeqCst) {
             // never gated, or the scheduler was removed: run freely (lets leftovers wind down)
             return inner.poll(cx);
@@ -504,7 +504,8 @@ impl<F: Future> Future for Gate<F> {
             if let Some(t) = g.tasks.get_mut(&id) {
                 t.tokio_waker = Some(cx.waker().clone());
             }
-            if g.permit != Some(id) {
+            // (a step in flight here is the drop of an aborted task on another thread: wait for it)
+            if g.permit != Some(id) || g.in_flight.is_some() {
                 return Poll::Pending;
             }
             g.permit = None;
@@ -559,16 +560,52 @@ impl<F: Future> Future for Gate<F> {
 impl<F> Drop for Gate<F> {
     fn drop(&mut self) {
         if self.id != 0 && !self.done {
-            // the task was aborted (or its runtime shut down): the inner future is dropped right
-            // after this body, still attributed to this task.
-            emit("task.dropped", self.id, 0);
-            let mut g = sched();
-            g.tasks.remove(&self.id);
-            if g.permit == Some(self.id) {
-                g.permit = None;
+            // the task was aborted (or its runtime shut down). The drop of its future (ports, lifecycle
+            // guard ...) is one step of the schedule: when it happens on a thread of its own (a
+            // thread-local actor on its spawner's thread) it waits for the step in flight and no
+            // other task is granted a step until it is over.
+            let in_step_here = CUR_TASK.with(|c| c.get()) != 0;
+            let mut claimed = false;
+            if SCHED_ON.load(Ordering::SeqCst) && !in_step_here {
+                let t0 = std::time::Instant::now();
+                loop {
+                    {
+                        let mut g = sched();
+                        if g.in_flight.is_none() {
+                            g.in_flight = Some(self.id);
+                            claimed = true;
+                            break;
+                        }
+                    }
+                    if t0.elapsed() > std::time::Duration::from_secs(2) {
+                        break;
+                    }
+                    std::thread::yield_now();
+                }
             }
+            emit("task.dropped", self.id, 0);
+            {
+                let mut g = sched();
+                g.tasks.remove(&self.id);
+                if g.permit == Some(self.id) {
+                    g.permit = None;
+                }
+            }
+            drop(self.inner.take());
+            let mut g = sched();
+            if claimed {
+                g.in_flight = None;
+            }
+            // a task that was granted its step meanwhile was told to wait: poll it again
+            let pw = g
+                .permit
+                .and_then(|id| g.tasks.get(&id))
+                .and_then(|t| t.tokio_waker.clone());
             let w = g.driver_waker.take();
             drop(g);
+            if let Some(pw) = pw {
+                pw.wake();
+            }
             if let Some(w) = w {
                 w.wake();
             }
